@@ -69,7 +69,7 @@ def rejected_line(r):
 
 
 def judge_units(ctx, module, cfg, units, label, describe=None, on_accept=None, max_rounds=8, timeout=300, heap="6g",
-                count_traces=True):
+                count_traces=True, collect=None):
     """Validate the concatenation of `units` (lists of events) with the trace specification.  A
     rejected unit is reported as a violation (its events + TLC's output are the replay) and judging
     goes on with the remaining units.  describe(unit, line_in_unit, tlc_text) -> (what, detail)."""
@@ -81,6 +81,8 @@ def judge_units(ctx, module, cfg, units, label, describe=None, on_accept=None, m
         path = ctx.path(f"{label}.{rounds}.ndjson")
         vlib.write_ndjson(path, flat)
         ok, r = vlib.validate_trace(ctx, module, cfg, path, name=f"{label}.{rounds}", timeout=timeout, heap=heap)
+        if collect is not None:
+            collect.append(r.out)
         if ok:
             accepted += len(pending)
             if on_accept:
